@@ -310,7 +310,7 @@ class Exec:
         if via == "Study.system_attrs":
             return self.study_obj(s).system_attrs, "attrs", {"s": s, "f": "sa"}
         if via.startswith("Trial."):
-            trial, t, _ = self.slots[op["slot"]]
+            trial, t = self.slots[op["slot"]][:2]
             if via == "Trial.params":
                 return (trial.params, trial.distributions), "params", {"t": t, "f": "params"}
             if via == "Trial.user_attrs":
@@ -339,10 +339,10 @@ class Exec:
     def do_mutate(self, op):
         from optuna.trial import FrozenTrial, TrialState
 
-        cand = [i for i, h in enumerate(self.held) if h.deep and not h.mutated]
+        cand = [i for i, h in enumerate(self.held) if h.deep and not h.mutated and op.get("via") in (None, h.via)]
         if not cand:
             return
-        i = cand[op["pick"] % len(cand)]
+        i = cand[-1] if "via" in op else cand[op["pick"] % len(cand)]
         h = self.held[i]
         how = op["how"]
 
@@ -528,8 +528,11 @@ class Exec:
         # the remaining ops address a live Trial object
         if op.get("slot") not in self.slots:
             return
-        trial, t, s = self.slots[op["slot"]]
+        trial, t, s, steps, names = self.slots[op["slot"]]
         if a == "T.suggest":
+            if op["name"] in names:
+                return
+            names.add(op["name"])
             d = sd.dist_of(op["d"])
             self.sampler.next = d.to_external_repr(sd.VALS[op["v"]])
             try:
@@ -547,6 +550,9 @@ class Exec:
                 ret, via = self._err(e), "Trial.suggest"
             return self.write_event({"a": "set_param", "t": t, "name": op["name"], "v": op["v"], "d": op["d"]}, ret, via)
         if a == "T.report":
+            if int(op["step"]) in steps:
+                return
+            steps.add(int(op["step"]))
             try:
                 trial.report(sd.VALS[op["v"]], int(op["step"]))
                 ret = {"k": "ok", "v": 0}
@@ -586,7 +592,10 @@ class Exec:
             t = self._register_trial(raw)
             ev = {"a": "create_trial", "s": s, "tm": {"has": 0}}
             ret = {"k": "ok", "v": t}
-        self.slots[slot] = [trial, t, s]
+        # what the trial already holds (bookkeeping read): Trial.report / suggest_* on a step / name that exists are
+        # documented no-ops, so the scripts' ops on those are dropped instead of being logged as writes
+        ft = self.storage.get_trial(raw)
+        self.slots[slot] = [trial, t, s, set(ft.intermediate_values), set(ft.params)]
         self.write_event(ev, ret, via)
 
     def run(self, script):
@@ -712,8 +721,9 @@ def storage_tour(j=0, m=1):
         if n % m == j:
             ops += storage_burst([1, 2], [1, 2, 3, 4])
         ops.append(w)
-    for k in range(4):
-        ops.append({"a": "mutate", "pick": 37 * (k + 4 * j) + 5, "how": k + 4 * j})
+    ops += storage_burst([1, 3], [1, 2, 3, 5])
+    for k, via in enumerate(v for v, (_, deep) in GETTERS.items() if deep and v.startswith("storage.")):
+        ops.append({"a": "mutate", "via": via, "how": 9 * j + 5 * k})     # the latest result of every deep-copying getter
     return ops
 
 
@@ -755,8 +765,9 @@ def study_tour(j=0, m=1):
         if n % m == j:
             ops += b([0, 1])
         ops.append(w)
-    for k in range(5):
-        ops.append({"a": "mutate", "pick": 53 * (k + 5 * j) + 11, "how": k + 5 * j})
+    ops += b([0, 1, 2, 3])
+    for k, via in enumerate(v for v, (_, deep) in GETTERS.items() if deep):
+        ops.append({"a": "mutate", "via": via, "how": 9 * j + 5 * k})
     return ops
 
 
@@ -929,6 +940,17 @@ def strip_trace(t):
     return {"tid": t["tid"], "tab": t["tab"], "ev": t["ev"]}
 
 
+def validate(traces, **kw):
+    """TLC run + bookkeeping of its verdict lines: a trace with a <<"CHANGED", tid, l, i>> line is not accepted"""
+    v = tlc.validate("HandlesTrace", "HandlesTrace", [strip_trace(t) for t in traces], extra_env={"C20_STRICT": "0"}, **kw)
+    n_ev = {t["tid"]: len(t["ev"]) for t in traces}
+    for p in v.prints:
+        if p and p[0] == "CHANGED":
+            v.accepted.discard(p[1])
+            v.rejected.setdefault(p[1], {"reached": n_ev[p[1]] + 1, "len": n_ev[p[1]]})
+    return v
+
+
 def _write_before(t, l):
     """the write event whose recheck is event l (1-based)"""
     for e in reversed(t["ev"][: l - 1]):
@@ -954,7 +976,7 @@ def classify_and_report(ctx, traces, v):
         for l, i in sorted(changed.get(tid, [])):
             via, deep, tgt = t["meta"][i - 1]
             w = _write_before(t, l) or {}
-            wvia = w.get("via", "?")
+            wvia = ("modified:" if w.get("a") == "mutate" else "") + w.get("via", "?")
             cfam = "journal" if t["config"] in JOURNAL_LIKE else t["config"]
             sig = None
             if wvia.startswith("Trial.") and not deep and t["config"] in inmem_like and \
@@ -971,10 +993,14 @@ def classify_and_report(ctx, traces, v):
             if key in reported or len(ctx.violations) >= 8:
                 continue
             reported.add(key)
-            wtxt = json.dumps({k: x for k, x in w.items() if k not in ("ret",)})
+            if w.get("a") == "mutate":
+                wtxt = (f"the harness modified the result of {w['via']} ({w['how']}), which is a deep copy by contract and must "
+                        f"share nothing with other objects")
+            else:
+                wtxt = "the later write " + json.dumps({k: x for k, x in w.items() if k not in ("ret",)})
             ctx.violation(
                 f"backend {t['config']} script {t['hid']}: the object obtained from {via} (target {json.dumps(tgt)}) no longer "
-                f"projects to the value it had when it was read, after the later write {wtxt} (event #{l})"
+                f"projects to the value it had when it was read, after {wtxt} (event #{l})"
                 + (f" [scenario family: {sig}]" if sig else ""),
                 dict(replay, changed_handle=i, getter=via, setter=wvia, at_event=l, signature=sig))
         info = v.rejected[tid]
@@ -1003,9 +1029,9 @@ def classify_and_report(ctx, traces, v):
 
 def make_plan(ctx):
     q = ctx.quick
-    n_rand_fast, n_rand_slow = (40, 6) if q else (400, 60)
-    n_tlc_fast, n_tlc_slow = (24, 4) if q else (300, 40)
-    n_sess_fast, n_sess_slow = (50, 8) if q else (600, 80)
+    n_rand_fast, n_rand_slow = (32, 6) if q else (400, 60)
+    n_tlc_fast, n_tlc_slow = (20, 4) if q else (300, 40)
+    n_sess_fast, n_sess_slow = (40, 8) if q else (600, 80)
     tl = scripts_from_tlc(ctx, n_tlc_fast, 24)
     rand = []
     for h in sg.histories(ctx.rng, n_rand_fast, 14):
@@ -1057,7 +1083,7 @@ def run(ctx):
         ctx.count_case([t["config"], t["ops"]], nontrivial=any(e["a"] == "recheck" and e["vals"] for e in t["ev"]))
         pairs |= {(t["config"], g, w) for g, w in t["pairs"]}
         stats.update(t["stats"])
-    v = tlc.validate("HandlesTrace", "HandlesTrace", [strip_trace(t) for t in traces], shards=16, timeout=2400)
+    v = validate(traces, shards=16, timeout=2400)
     ctx.validated(v, "scripts x backends")
     skipped = [p for p in v.prints if p and p[0] in ("UNDEF", "DIVERGED")]
     ctx.notes["replay_left_contract"] = {"UNDEF": sum(p[0] == "UNDEF" for p in skipped),
@@ -1134,15 +1160,17 @@ def selftests(ctx, traces, v):
                 return
         raise tlc.MachineryError("self-test: no read-back event")
 
-    ctx.binding_selftest("HandlesTrace", "HandlesTrace", g, stale_view, "held object follows a later write")
-    ctx.binding_selftest("HandlesTrace", "HandlesTrace", g, wrong_read, "object at read time is not the current value")
-    ctx.binding_selftest("HandlesTrace", "HandlesTrace", g, wrong_post, "read-back shows a modified copy")
+    strict = {"C20_STRICT": "1"}
+    ctx.binding_selftest("HandlesTrace", "HandlesTrace", g, stale_view, "held object follows a later write", extra_env=strict)
+    ctx.binding_selftest("HandlesTrace", "HandlesTrace", g, wrong_read, "object at read time is not the current value",
+                         extra_env=strict)
+    ctx.binding_selftest("HandlesTrace", "HandlesTrace", g, wrong_post, "read-back shows a modified copy", extra_env=strict)
 
 
 def replay(ctx, data):
     tr = run_scripts(data["config"], [{"hid": data.get("hid", "replay"), "ops": data["ops"]}])
     for i, t in enumerate(tr):
         t["tid"] = i + 1
-    v = tlc.validate("HandlesTrace", "HandlesTrace", [strip_trace(t) for t in tr])
+    v = validate(tr)
     ctx.validated(v, "replay")
     classify_and_report(ctx, tr, v)
